@@ -102,6 +102,31 @@ class Run:
         log("  MC %-18s %-22s %9d distinct %10d generated  %.1fs" % (m["spec"], m["cfg"], r["distinct"], r["generated"], r["wall_s"]))
         return r
 
+    @staticmethod
+    def _norm(text):
+        try:
+            return json.dumps(json.loads(text), sort_keys=True, separators=(",", ":"))
+        except ValueError:
+            return text
+
+    def run_fidelity(self, harness, f):
+        """state-set comparison implementation-shaped model vs real code (information, never a verdict)"""
+        out = self.tlc(f["spec"] + ".tla", f["cfg"], workers=1, xmx="4g", timeout=600)
+        model = set()
+        for line in out.splitlines():
+            if line.startswith('"S|'):
+                model.add(self._norm(line[3:-1].replace('\\"', '"')))
+        p = sh([harness, "canon", "-kind", f["arg"]], timeout=600)
+        code = set(self._norm(l) for l in p.stdout.splitlines() if l.strip())
+        r = {"model": f["spec"] + "/" + f["cfg"], "universe": f["arg"], "model_states": len(model), "code_states": len(code),
+             "identical": model == code and len(model) > 0}
+        if not r["identical"]:
+            r["only_in_model"] = sorted(model - code)[:3]
+            r["only_in_code"] = sorted(code - model)[:3]
+        log("  FIDELITY %-10s %-16s model %6d  code %6d  %s" % (f["spec"], f["arg"], len(model), len(code),
+                                                               "identical" if r["identical"] else "MODEL DRIFT"))
+        return r
+
     # -------------------------------------------------------------------------------- traces
     def record(self, harness, job, kind, idx):
         out = os.path.join(self.work, "%s-%s-%d.ndjson" % (job, kind or "all", idx))
@@ -287,6 +312,14 @@ def check(prop, tier, seed, only_event=None):
             mcs.append(mm)
         with cf.ThreadPoolExecutor(max_workers=6 if tier == "quick" else 4) as ex:
             run.mc = list(ex.map(run.run_mc, mcs))
+        fids = p.get("fidelity", [])
+        if fids:
+            try:
+                with cf.ThreadPoolExecutor(max_workers=6) as ex:
+                    run.extra["model_fidelity"] = list(ex.map(lambda f: run.run_fidelity(harness, f), fids))
+                run.extra["model_drift"] = not all(r["identical"] for r in run.extra["model_fidelity"])
+            except Exception as ex:  # never a verdict
+                run.extra["model_fidelity"] = [{"error": str(ex)[:300]}]
         for tj in p.get("traces", []):
             if tier == "quick" and tj.get("thorough_only"):
                 continue
